@@ -9,20 +9,8 @@ pub use std::io;
 pub mod time {
     pub use std::time::*;
 
-    /// `SystemTime::now()` reads the simulated wall clock and returns a real `std::time::SystemTime`.
-    pub struct SystemTime;
-
-    impl SystemTime {
-        pub const UNIX_EPOCH: std::time::SystemTime = std::time::UNIX_EPOCH;
-
-        #[allow(clippy::new_ret_no_self)]
-        pub fn now() -> std::time::SystemTime {
-            let ns = dsim::wall_now();
-            let secs = (ns / 1_000_000_000) as u64;
-            let nanos = (ns % 1_000_000_000) as u32;
-            std::time::UNIX_EPOCH + Duration::new(secs, nanos)
-        }
-    }
+    // `SystemTime` is std's own type: its `now()` reaches the interposed `clock_gettime`, which
+    // returns the simulated wall clock, records the reading and is a scheduling point.
 
     /// Monotonic simulated time.
     #[derive(Clone, Copy, Debug, PartialEq, Eq, PartialOrd, Ord)]
